@@ -265,6 +265,13 @@ Definition names_valid (count : nat) (nm : names) : bool :=
 Definition names_list (nm : names) : list string :=
   match nm with NNone => [] | NStr s => [s] | NList l => l end.
 
+(** the names in force: extra_coords_names is ignored without extra
+    coordinates, data_names is ignored when data is None *)
+Definition extra_names_of (extras : list arr2) (xnames : names) : list string :=
+  match extras with [] => [] | _ => names_list xnames end.
+Definition data_names_of (data : dataarg) (dnames : names) : list string :=
+  match data with DNone => [] | _ => names_list dnames end.
+
 Definition coords_valid (ce cn : nd) (extras datas : list arr2) : bool :=
   match ce, cn with
   | A1 e, A1 n => forallb (rect (length n) (length e)) (extras ++ datas)
@@ -325,8 +332,8 @@ Definition make_holds (ce cn : nd) (extras : list arr2) (data : dataarg)
     match obs with
     | None => false
     | Some ds =>
-      let xn := match extras with [] => [] | _ => names_list extra_names end in
-      let dn := match data with DNone => [] | _ => names_list data_names end in
+      let xn := extra_names_of extras extra_names in
+      let dn := data_names_of data data_names in
       match assoc (fst dims) (ds_coords ds), assoc (snd dims) (ds_coords ds) with
       | Some (Idx n'), Some (Idx e') =>
         (match ce, cn with
@@ -395,8 +402,8 @@ Definition table_holds (g : grid) (obs : option table) : bool :=
     raveled extra coordinates and data arrays under their names *)
 Definition roundtrip_expected (ce cn : nd) (extras : list arr2) (data : dataarg)
     (data_names : names) (dims : string * string) (extra_names : names) : option table :=
-  let xn := match extras with [] => [] | _ => names_list extra_names end in
-  let dn := names_list data_names in
+  let xn := extra_names_of extras extra_names in
+  let dn := data_names_of data data_names in
   match ce, cn with
   | A1 e, A1 n =>
     Some ((fst dims, ravel (mesh_n e n)) :: (snd dims, ravel (mesh_e e n))
